@@ -87,6 +87,8 @@ wexit = st.tuples(st.just('wexit'), k).map(list)
 dup = st.tuples(st.just('dup'), k).map(list)
 scan = st.tuples(st.just('scan'), st.booleans(),
                  st.sampled_from([-15, 15])).map(list)
+scanrace = st.tuples(st.just('scanrace'), st.integers(0, 6), k,
+                     st.booleans()).map(list)
 discard = st.tuples(st.just('discard'), k).map(list)
 tjob = st.tuples(st.just('tjob'), k, st.sampled_from([None, 9])).map(list)
 hterm = st.tuples(st.just('hterm'), k, st.sampled_from([-15, 15])).map(list)
